@@ -67,6 +67,18 @@ claim("C03", SIM + "; oracle: wire monitor over every output of every API call (
       "trusted: harness lifecycle tracking from observable events, refotr key derivation for the wrong-key probes",
       "DESIGN.md section 5 C03")
 
+claim("C11", SIM + "; oracle: outcome table per SMP run (success iff secrets byte-equal and same session); relay world must never succeed",
+      "Two honest real parties run SMP repeatedly with PRNG-chosen secrets (equal, one bit apart, empty, 1 byte, 4 KiB, binary), questions, initiator, answer delay, and ordinary traffic/heartbeats/rotations interleaved between SMP steps; in a quarter of the runs a man in the middle (reference implementation, two separately keyed sessions) forwards the SMP TLVs unchanged. "
+      "Equal secrets in one session: both report success; different: nobody reports success, responder reports failure, initiator failure or abort; relay: never success.",
+      "trusted: harness run bookkeeping; refotr as the relay's protocol engine",
+      "DESIGN.md section 5 C11")
+
+claim("C12", SIM + "; oracle: no success event (the lying peer never knows the secret), no panic/hang, recovery run with equal secrets succeeds",
+      "A real victim is in an authenticated encrypted session with a lying peer built on the reference implementation (all SMP exponents exported, verification switched off on its side). The peer sends honest-but-wrong-secret messages, messages with any MPI replaced by boundary values (proofs stale), messages built from forced exponents 0/1/q/q-1/q+1 (proofs recomputed), wrong counts / truncations / missing question terminator, out-of-sequence and duplicated messages and aborts, while the victim's user calls start/answer/abort at arbitrary points; a follow-up driver completes multi-step attacks. "
+      "Any success event or panic on the victim is a violation; afterwards an honest run with equal secrets must succeed on both sides.",
+      "trusted: refotr SMP engine (its honest path interoperates with otr3 in both roles, C10/C11); sampling of the (message, field, value) table, reported as probes",
+      "DESIGN.md section 5 C12")
+
 _todo = "check not built yet in this session (see DESIGN.md section 12 build order)"
 for pid in [ "C11", "C12", "C13", "C14", "C15", "C16", "C18", "C19", "C20"]:
     NA[pid] = _todo
